@@ -9,11 +9,11 @@ LOG=/tmp/confirm-$NAME.log
 rm -rf $WT; git -C /repo worktree prune; git -C /repo worktree add --detach $WT HEAD -q || exit 2
 {
 echo "== demo on unmodified tree"
-g++ -std=c++17 -O2 -fopenmp -I$WT/src $OUT/demo.cpp -o $WT/demo0 -lfftw3 -lfftw3f 2>&1 | tail -3
+g++ -std=c++17 -O2 -fopenmp $DEMOFLAGS -I$WT/src $OUT/demo.cpp -o $WT/demo0 -lfftw3 -lfftw3f 2>&1 | tail -3
 ( cd $WT && timeout 600 ./demo0 > /dev/null 2>&1 ); echo "demo_unmodified_exit=$?"
 git -C $WT apply $OUT/patch.diff || echo "PATCH-DOES-NOT-APPLY"
 echo "== demo on modified tree"
-g++ -std=c++17 -O2 -fopenmp -I$WT/src $OUT/demo.cpp -o $WT/demo1 -lfftw3 -lfftw3f 2>&1 | tail -3
+g++ -std=c++17 -O2 -fopenmp $DEMOFLAGS -I$WT/src $OUT/demo.cpp -o $WT/demo1 -lfftw3 -lfftw3f 2>&1 | tail -3
 ( cd $WT && timeout 600 ./demo1 > /dev/null 2>&1 ); echo "demo_modified_exit=$?"
 for t in $TESTS; do
   g++ -std=c++17 -O2 -DNDEBUG -fopenmp -DTBF_USE_OPENMP -DTBF_USE_FFTW -I$WT/src -I$WT/unit-tests $WT/unit-tests/$t.cpp -o $WT/$t -lfftw3 -lfftw3f > $WT/$t.build 2>&1 || echo "test $t BUILD-FAILED"
